@@ -162,6 +162,9 @@ func (m *SubscribeMessage) Decode(src []byte) (int, error) {
 		return total, err
 	}
 
+	// The packet ends where the fixed header says it ends.
+	src = src[:total+int(m.remlen)]
+
 	if len(src) < total+2 {
 		return total, fmt.Errorf("subscribe/Decode: Insufficient buffer size. Expecting %d, got %d", total+2, len(src))
 	}
@@ -192,6 +195,10 @@ func (m *SubscribeMessage) Decode(src []byte) (int, error) {
 
 	if len(m.topics) == 0 {
 		return 0, fmt.Errorf("subscribe/Decode: Empty topic list")
+	}
+
+	if total != len(src) {
+		return total, fmt.Errorf("subscribe/Decode: Remaining length (%d) does not match the packet", m.remlen)
 	}
 
 	m.dirty = false
